@@ -70,6 +70,10 @@ func init() {
 		if rc.runMC("MC_C17", []string{"Inv"}, nil, 60*time.Minute) == nil {
 			return
 		}
+		// every pair and every triple of the special values (DST hours, day boundary, times of day)
+		if rc.runMC("MC_DTPairs", []string{"Inv"}, nil, 30*time.Minute) == nil {
+			return
+		}
 		rows, err := readNDJSON[strRow](filepath.Join(rc.Dir, "dtstrings.ndjson"))
 		if err != nil {
 			rc.infra("%v", err)
